@@ -300,11 +300,26 @@ def traced_runs(res, args):
                 seq = ('--disable-all', ) + tuple(
                     o for o in seq if not o.startswith('--no-'))
             strat = r.choice(workload.STRATEGIES)
+            breaking = r.random() < 0.5
+            if breaking and r.random() < 0.7:
+                # (the calls are counted per run, not per strategy)
+                strat = 'hierarchical'
             opts_run = ['--strategy', strat, '-j', str(r.choice([1, 2])),
                         '--timeout', '20'] + list(seq)
             wd = os.path.join(base, f'r{i}')
+            cfg = {'monitors': ['mut']}
+            broken = None
+            if breaking:
+                # one mutator fails in every call: the others still have to
+                # be consulted
+                broken = r.choice(['EraseNode', 'Constants', 'ReplaceByChild',
+                                   'ReplaceByVariable', 'LetSubstitution',
+                                   'SortChildren', 'MergeWithChildren',
+                                   'BoolDeMorgan', 'SimplifySymbolNames'])
+                cfg['break_mutator'] = broken
+                cfg['break_where'] = r.choice(['mutations', 'filter', 'all'])
             run = realrun.run_ddsmt(wd, text, rules, opts=opts_run,
-                                    launcher={'monitors': ['mut']})
+                                    launcher=cfg)
             shutil.rmtree(wd, ignore_errors=True)
             res.count('evaluations')
             res.count('traced_runs')
@@ -344,6 +359,41 @@ def traced_runs(res, args):
                         f'{sorted(miss)} enabled by {list(seq)} but not '
                         f'scheduled by the real {e["strategy"]} run',
                         {'options': opts_run, 'input': text})
+            # A run that ends normally has gone through all its passes once
+            # more without success: every mutator scheduled there has been
+            # consulted, also when another one fails in every call.
+            ninj = sum(1 for e in run.events
+                       if e['ev'] == 'injected_exception')
+            if ninj:
+                res.count('traced_runs_with_a_failing_mutator')
+            final = text if run.out_bytes is None else \
+                run.out_bytes.decode('utf-8', 'replace')
+            try:
+                final_nonempty = bool(refreader.read(final))
+            except Exception:
+                final_nonempty = False
+            # (on an input that has become empty there is no node to consult
+            # a mutator about)
+            if not run.uncaught_traceback and final_nonempty:
+                for e in run.events:
+                    if e['ev'] != 'passes' or e['strategy'] != strat and \
+                            strat != 'hybrid':
+                        continue
+                    last = set(e['passes'][-1]) \
+                        if e['strategy'] == 'hierarchical' else \
+                        {c for ps in e['passes'] for c in ps}
+                    res.count('runs_checked_for_use_of_scheduled_mutators')
+                    unused = last - called - {broken}
+                    if unused:
+                        res.violation(
+                            'scheduled-mutator-never-consulted' +
+                            (':while-another-fails' if ninj else ''),
+                            f'{sorted(unused)[:4]} scheduled by the real '
+                            f'{e["strategy"]} run but never called' +
+                            (f' ({broken} fails in every call)'
+                             if ninj else ''),
+                            {'options': opts_run, 'input': text,
+                             'rules': rules, 'launcher': cfg})
             res.count('mutator_classes_called', len(called))
             for c in called:
                 res.add_set('classes_called', c)
